@@ -70,6 +70,9 @@ theorem comparePoses_is_source (ta tb : Iso R) (dT aT : R) :
     SrcCtl.comparePosesSrc (ta.t.sub tb.t).norm (Quat.angleTo ta.q tb.q) dT aT = comparePoses ta tb dT aT :=
   comparePosesSrc_eq ta tb dT aT
 
+theorem kinematicSingularity_is_source (p : Params R) (j : J6 R) :
+    SrcCtl.kinematicSingularitySrc p j = kinematicSingularity p j := kinematicSingularitySrc_eq p j
+
 theorem insideBounds_is_source (angle centre tol : R) :
     SrcCtl.insideBoundsSrc angle centre tol = insideBounds angle centre tol := insideBoundsSrc_eq angle centre tol
 
